@@ -7,6 +7,7 @@
    (16 6 rows cols (rs rl cs cl) rrev crev probes)   MatrixReverse over that MatrixRange
    (16 7 rows cols (rs rl cs cl) n0 n1)       TensorRefMatrix::with_names over that MatrixRange
    (16 8 rows cols)                           Matrix::try_into_scalar
+   (16 9 rows cols probes)                    checked element access directly on a Matrix (all forms)
    The model is evaluated with dev-build (overflow-checking) arithmetic; Proofs/C16P.v shows it
    cannot panic and coincides with wrapping arithmetic, so one result serves both profiles. *)
 From Coq Require Import List ZArith NArith Bool.
@@ -92,6 +93,12 @@ Definition run_c16 (args : list sx) : sx :=
       match dN rows, dN cols with
       | Some rows, Some cols => soutcome sN (try_into_scalar rows cols)
       | _, _ => bad_case
+      end
+  | [SZ 9%Z; rows; cols; probes] =>
+      match dN rows, dN cols, dlist dpair_idx probes with
+      | Some rows, Some cols, Some probes =>
+          slist (fun p => soutcome (sopt sN) (matrix_try_index m0 rows cols (fst p) (snd p))) probes
+      | _, _, _ => bad_case
       end
   | _ => bad_case
   end.
